@@ -85,3 +85,17 @@ Example C12_example :
   forallb is_fun ops = true /\
   length (staged ops [mkRec [] (lit "{""a"": 2}"); mkRec [] (lit "{""a"": 1}"); mkRec [] (lit "junk")]) = 1%nat.
 Proof. vm_compute. split; reflexivity. Qed.
+
+(** KF-44 - "one input row, one output row" is FALSE for [fields] when nothing is left of a row: the row disappears
+    (written on purpose in fields.rs), so a later count is too small.  The witness replayed on the binary is the
+    known finding. *)
+Theorem C12_fields_drops_fieldless_row_refuted :
+  exists lines q t,
+    length lines = 3%nat /\
+    out (run_pipeline (fun _ => true) q lines) = Ok (OTable t) /\ t_rows t = [[(lit "_count", VInt 2)]].
+Proof.
+  exists [lit "{""a"":1}"; lit "{""b"":2}"; lit "{""a"":3}"],
+         [SJson None; SFields true [lit "a"]; SAgg [(lit "_count", FCount None)] []].
+  eexists. split; [reflexivity|split; [vm_compute; reflexivity|reflexivity]].
+Qed.
+Print Assumptions C12_fields_drops_fieldless_row_refuted.
